@@ -207,7 +207,6 @@ class Topic(Entity):
         Returns:
             List of delivery events for each subscriber.
         """
-        now = self._clock.now if self._clock else Instant.Epoch
         self._messages_published += 1
 
         # Store in history if retaining
@@ -226,8 +225,13 @@ class Topic(Entity):
             self._messages_delivered += 1
             self._delivery_latencies.append(self._delivery_latency)
 
+        # The delivery events reach the engine only when this generator returns, so they are
+        # stamped with the clock read now: the `now` captured before the latency yields is in
+        # the past, and the engine discards events scheduled in its past.
+        deliver_at = self._clock.now if self._clock else Instant.Epoch
+        for subscription in active_subscribers:
             delivery_event = Event(
-                time=now,
+                time=deliver_at,
                 event_type="topic_message",
                 target=subscription.subscriber,
                 context={
